@@ -1,3 +1,5 @@
+import DSV.Proofs.Skeleton
+import DSV.Generated.Skeleton
 import DSV.Model.Reader
 import DSV.Proofs.Occ
 /-!
@@ -85,3 +87,23 @@ theorem monotone_reads (cfg : Cfg) (sched : List (Nat × Act)) :
     · cases h
 
 end DSV.Occ
+
+/-! ## Tie to the current source: one pointer resolution per read -/
+namespace DSV.Src.C02
+open DSV.Skel DSV.Generated.Skel DSV.Reader
+
+/-- **source_reads_pointer_once** — the CURRENT `Table._get_all_data_files` resolves the pointer exactly once (the model's
+`twoRefreshes = false`; the code as found refreshed twice — `read_is_snapshot_refuted`). -/
+theorem source_reads_pointer_once : twoRefreshesOf tblGetAllDataFiles = false := by decide
+
+/-- **read_is_snapshot_source** — `read_is_snapshot_fixed` with the switch READ OFF the current source. -/
+theorem read_is_snapshot_source : ReadIsSnapshot (twoRefreshesOf tblGetAllDataFiles) := by
+  rw [source_reads_pointer_once]; exact read_is_snapshot_fixed
+
+/-- **source_read_order** — metadata, then the manifest list, then manifests; a missing list or manifest raises. -/
+theorem source_read_order :
+    project [("metadata_manager.refresh", "meta"), ("file_manager.read_manifest_list_file", "list"),
+             ("file_manager.read_manifest_file", "manifest"), ("raise:RuntimeError", "raise")] tblGetAllDataFiles
+      = ["meta", "raise", "raise", "list", "raise", "manifest"] := by decide
+
+end DSV.Src.C02
